@@ -249,7 +249,7 @@ add({"name": "hxc_get_track_metadata", "file": HX,
      "anchor": r"std::map<TrackDataKey, TrackData> HxcMfmFile::get_track_metadata\(\)",
      "sig": "static void hxc_get_track_metadata(struct HxcMfmFile *self)",
      "rules": [(r"std::map<TrackDataKey, TrackData> result;", "/* result: ghost map (trackmap_insert) */", 1),
-               (r"header_\.", "self->header_.", 3),
+               (r"header_\.", "self->header_.", ">=1"),
                (r"std::vector<byte> raw_metadata = file_->read\(([^;]*)\);", r"struct dynvec raw_metadata = FileAccess_read_dyn(self->file_, \1);", 1),
                (r"raw_metadata\.size\(\)", "raw_metadata.n", 1),
                (r'throw InvalidHxcMfmFile\("[^"]*"\);', "{ VERIF_THROW(Other, 0); return; }", 2),
@@ -579,6 +579,11 @@ THROW_ANY = (r"throw [A-Za-z_:]+\((?:[^()]|\([^()]*\))*\);", "{ VERIF_THROW(Othe
 add({"name": "check_zlib_error_code", "file": "dfs/img_gzfile.cc", "anchor": r"void check_zlib_error_code\(int zerr\)",
      "sig": "static void check_zlib_error_code(int zerr)",
      "rules": [(THROW_ANY[0], THROW_ANY[1], ">=8"), (r"throw out_of_memory;", "{ VERIF_THROW(Other, 0); return; }", 1)]})
+add({"name": "gz_inflate_init", "file": "dfs/img_gzfile.cc",
+     "anchor": r"int zerr = inflateInit2\(", "region_end": r"cleanup de_init\(",
+     "sig": "static void gz_inflate_init(struct z_stream_model *stream_)",
+     "rules": [(r"inflateInit2\(&stream,", "gz_inflateInit2(stream_,", 1),
+               (r"check_zlib_error_code\(zerr\);", "{ check_zlib_error_code(zerr); if (g_exc) return; }", 1)]})
 add({"name": "gz_inflate_loop", "file": "dfs/img_gzfile.cc",
      "anchor": r"const int input_buf_size = 512;",
      "region_end": r"\}\s*FILE\* open_temporary_file\(\)",
